@@ -140,15 +140,14 @@ func (h *NFSProcedureHandler) handleSetattr(body io.Reader, reply *RPCReply, aut
 		node.mu.RUnlock()
 		return nfsErrorWithWcc(reply, NFSERR_IO), nil
 	}
-	attrs := &NFSAttrs{
-		Mode: node.attrs.Mode,
-		Uid:  node.attrs.Uid,
-		Gid:  node.attrs.Gid,
-	}
+	// Start from a full copy so that type bits, size and fileid survive SETATTR
+	attrsCopy := *node.attrs
+	attrs := &attrsCopy
 	node.mu.RUnlock()
 
 	if sattr.SetMode {
-		attrs.Mode = os.FileMode(sattr.Mode)
+		// Only the permission bits change; the file type is not settable
+		attrs.Mode = (attrs.Mode &^ os.ModePerm) | (os.FileMode(sattr.Mode) & os.ModePerm)
 	}
 	if sattr.SetUID {
 		if authCtx.EffectiveUID == 0 {
